@@ -51,6 +51,7 @@ pub fn ksf_fn(family: &str, id: Option<u32>) -> Box<dyn Fn(&[u8]) -> Vec<u8>> {
             let id = id.unwrap_or(0);
             Box::new(move |x: &[u8]| crate::refmodel::probe_ksf(id, x))
         }
+        "unit" => Box::new(|x: &[u8]| crate::refmodel::probe_ksf(7, x)),
         "argon2" => {
             let id = id.unwrap_or(0);
             Box::new(move |x: &[u8]| {
@@ -353,6 +354,14 @@ pub fn run(tier: Tier, seed: u64) -> i32 {
     }
     for api in apis_of(crate::adapter::argon::suites()) {
         for k in [None, Some(1u32)] {
+            let mut t2 = tuples[0].clone();
+            t2.p.ksf = k;
+            items.push((api, t2));
+        }
+    }
+    // a zero-sized user-defined stretching function
+    for api in apis_of(crate::adapter::unit::suites()) {
+        for k in [None, Some(0u32)] {
             let mut t2 = tuples[0].clone();
             t2.p.ksf = k;
             items.push((api, t2));
